@@ -211,3 +211,13 @@ def describe(ops, outs, hist):
     for kind, payload in _ref_pool_events(ops, outs):
         if kind == "run":
             hist["poolsize:%d" % len(payload[0])] += 1
+
+MANIFEST = {
+    "text": ("Proof: Lean 4 theorems C01_window / C01_share / C01_zero_never / C01_selects_positive / C01_after_any_history / C01_concurrent "
+             "hold for every weight vector, every window offset, every prior history and every caller interleaving of the model RR.next "
+             "(orbit + periodicity argument, no bound on sizes). The model is tied to roundrobin/rr.go by a differential run of the real "
+             "RoundRobin and the compiled model on generated op sequences (thorough: all weight vectors n<=4,w<=6)."),
+    "note": ("Trusted: Lean kernel; propext/Classical.choice/Quot.sound; the hand-written model is validated against the code only on the "
+             "generated scenarios; each NextServer call is assumed atomic (mutex held for the whole body: C09 lock facts); weights below 2^31."),
+    "technique": "Lean 4 proof (orbit/periodicity induction) over executable model + differential correspondence with roundrobin.RoundRobin",
+}
